@@ -83,7 +83,7 @@ def hitsound_copy(osu_src: OsuMap, osu_tgt: OsuMap) -> OsuMap:
         offset_group: pd.DataFrame
         v_groups = offset_group.groupby("volume", as_index=False).agg(
             {
-                "hitsound_file": ";".join,
+                "hitsound_file": list,
                 "hitsound_clap": "sum",
                 "hitsound_finish": "sum",
                 "hitsound_whistle": "sum",
@@ -97,7 +97,7 @@ def hitsound_copy(osu_src: OsuMap, osu_tgt: OsuMap) -> OsuMap:
             finishes = int(v_group["hitsound_finish"] / HS_FINISH)
             whistles = int(v_group["hitsound_whistle"] / HS_WHISTLE)
             hitsound_files = [
-                file for file in v_group["hitsound_file"].split(";") if len(file) > 0
+                file for file in v_group["hitsound_file"] if len(file) > 0
             ]
 
             samples = max(claps, finishes, whistles)
